@@ -265,6 +265,7 @@ def run(ctx):
     _run_rules(ctx)
     from .. import boundaries
     boundaries.check(ctx, 'C01.RB', 'C01')
+    boundaries.check_amounts(ctx, 'C01.RA', 'C01')
     boundaries.check_writes(ctx, 'C01.RW', 'C01')
     boundaries.check_guards(ctx, 'C01.RG', 'C01')
     boundaries.check_calls(ctx, 'C01.RC', 'C01')
